@@ -80,10 +80,12 @@ structure Cfg where
   /-- `_handle_key`/`_handle_mouse` walk a counted snapshot of the children, test `_is_shown`, and `_handle_mouse`
       returns a counted reference that `on_term_mouse` drops (the input engine's repairs 699581d, ce3ad0b, e6702a2) -/
   snapshotRouting : Bool
+  /-- `tickit_pen_copy` holds a reference on `src` while it runs (fixes/C08_pen_copy_keeps_src.patch) -/
+  penCopyKeepsSrc : Bool := false
 deriving Repr, DecidableEq, Inhabited
 
-def Cfg.orig : Cfg := ⟨false, false, false, false, false, false, false⟩
-def Cfg.fixed : Cfg := ⟨true, true, true, true, true, true, true⟩
+def Cfg.orig : Cfg := ⟨false, false, false, false, false, false, false, false⟩
+def Cfg.fixed : Cfg := ⟨true, true, true, true, true, true, true, true⟩
 
 /-- What an `int` of freshly `malloc`ed memory reads as in the sanitizer build the harness runs
     (AddressSanitizer fills new allocations with `0xbe`): `(int)0xbebebebe`.  Only used to mirror the tree
@@ -530,7 +532,8 @@ def fgEquiv (a b : PenX) : Bool :=
 
 /-- `tickit_pen_copy(dst, src, overwrite)`: only FG is ever set in this engine; the loop goes on reading `src` for
     the remaining attributes after the handlers of `dst` have run. -/
-def penCopy (st : St) (dst src : Nat) (overwrite : Bool) : Out St := do
+def penCopy (keepsSrc : Bool) (st : St) (dst src : Nat) (overwrite : Bool) : Out St := do
+  let st ← if keepsSrc then penRef st src else pure st
   let st ← penFreeze st dst
   let _ ← penRef st src >>= fun _ => (pure () : Out Unit)        -- tickit_pen_has_attr(src, FG)
   let sx := getPX st src
@@ -539,7 +542,8 @@ def penCopy (st : St) (dst src : Nat) (overwrite : Bool) : Out St := do
     else if dx.fg.isSome && (!overwrite || fgEquiv sx dx) then pure st
     else penCopyAttr st dst src
   let _ ← penRef st src >>= fun _ => (pure () : Out Unit)        -- tickit_pen_has_attr(src, BG), …
-  penThaw st dst
+  let st ← penThaw st dst
+  if keepsSrc then penUnref st src else pure st
 
 /-- `colournames[]`. -/
 def colourNames : List (String × Int) :=
